@@ -507,7 +507,9 @@ def evaluate_case(c, hl, ml, verdict, counts=None):
         # ---- the property on the implementation's own observation
         if name == "M" and toks[1] == "1" and prev is not None and prev.mode == 2 and (drift_failures(prev) or type_failures(prev)):
             entered_unsynced = True
-        if name == "M" and toks[1] == "2" and prev is not None and prev.mode == 0 and prev.Q is None and (prev.rt or prev.ct):
+        if name == "M" and toks[1] == "2" and prev is not None and prev.mode == 0 and type_failures(ho):
+            # setIntParam(SYNCMODE, MANUAL) coming from ONLYREAL neither clears nor recomputes the type arrays: they describe a
+            # rational LP that was freed, or one that was classified with another INFTY
             stale_types = True
         if name in ("SQ", "XS", "I") or (name == "M" and toks[1] == "1" and prev is not None and prev.mode == 0):
             stale_types = False
@@ -600,7 +602,7 @@ def classify_failure(kind, what, toks, prev, ho, entered_unsynced, stale_types):
         nz = [v for v in vals if v != 0]
         if name == "gE" and nz and abs(nz[-1]) <= FEPS:
             return "drift:elem-gmp-below-epsilon"
-        if name == "qE" and nz and abs(nz[-1]) > FEPS and abs(nz[-1]) < FEPS * (1 + Fraction(1, 2 ** 50)):
+        if name in ("qE", "gE") and nz and abs(nz[-1]) > FEPS and abs(nz[-1]) < FEPS * (1 + Fraction(1, 2 ** 50)):
             return "drift:elem-epsilon-boundary"
         if what and what[0].startswith("dims") and name in ("qAR", "gAR", "qAC", "gAC", "qARS", "qACS", "qCR", "qCC") \
                 and any(0 < abs(v) < Fraction(5e-324) / 2 for v in vals):
@@ -1027,6 +1029,7 @@ def corpus_cases():
     cs.append({"head": "1 -1", "ops": base + ["rE 0 0 %s" % dy(1e-20)]})
     # stale type arrays
     cs.append({"head": "1 -1", "ops": base + ["M 0", "M 2", "qAR 1/1 1/1 1 0 2/1", "SQ"]})
+    cs.append({"head": "0 1", "ops": ["rAC %s %s %s 0" % (d1, dy(-1e99), dy(1e30)), "XS", "I %s" % dy(1e15), "M 2", "qL 0 0/1"][:4]})
     # implicit growth through a value that underflows
     cs.append({"head": "1 -1", "ops": base + ["qAR 0/1 1/1 2 0 1/3 3 1/1" + "0" * 400]})
     # AUTO entered from MANUAL
